@@ -1,5 +1,6 @@
 import Ntrip.Proofs.PipeTerm
 import Ntrip.Proofs.SegmentRefine
+import Ntrip.Proofs.SegmentSpec
 /-!
 # C11 — when an application's message handling returns, all output has been written
 
@@ -63,6 +64,22 @@ theorem not_waiting_loses_output : ∃ s, Reach badCfg s ∧ s.mainReturned = tr
   exact ⟨_, r9, rfl, by decide⟩
 
 def goodCfg : Cfg Nat := { badCfg with waits := true }
+
+/-- When rtcmfilter's message handling has returned, all its writers have written the same
+    sequence of messages (stdout, record and display cannot differ from one another). -/
+theorem filter_writers_equal_at_return (crc bs produced k) (hc : (filterCfg crc bs produced k).WF) {s}
+    (h : Reach (filterCfg crc bs produced k) s) (hr : s.mainReturned = true) (i j : Nat) (hi : i < k) (hj : j < k) :
+    s.handled i = s.handled j := by
+  rw [filter_returned_all_written crc bs produced k hc h hr i hi,
+    filter_returned_all_written crc bs produced k hc h hr j hj]
+
+/-- When displayrtcm3's message handling has returned, the raw bytes of what it has written
+    account for the whole input: nothing of the file is still unwritten. -/
+theorem display_returned_bytes_complete (crc bs produced) (hc : (displayCfg crc bs produced).WF) {s}
+    (h : Reach (displayCfg crc bs produced) s) (hr : s.mainReturned = true) :
+    ((s.handled 0).map (·.raw)).flatten = bs := by
+  rw [display_returned_all_written crc bs produced hc h hr, handleMessages_eq]
+  exact (segmentS_lossless crc _ bs rfl).1
 
 /-- Non-vacuity: with the wait, a reachable state in which main has returned (and the writer has
     written the message). -/
